@@ -16,6 +16,7 @@ macro "epv_positivity" : tactic =>
                | epv_absurd
                | (simp only [epv_leaf, epv_cond, not_le, not_lt] at *; positivity)))
 
+
 /-- go to the leaf the hypotheses select: split the tree, refute the other paths by linear arithmetic,
 leave the leaf-level goal(s) -/
 macro "epv_select" : tactic =>
@@ -28,6 +29,7 @@ macro "epv_domain " h:ident : tactic =>
   `(tactic| (simp only [epv_tree] at $h:ident
              split_ifs at $h:ident <;> (try simp only [epv_cond, not_lt, not_le] at *) <;>
              first | (exact absurd $h (by decide)) | linarith))
+
 /-- acceptance tree against the catalogue: split the tree, decide each path -/
 macro "init_iff" : tactic =>
   `(tactic| (simp only [epv_tree, Geom123, Geom23, Noh.Documented, Noh2.Documented, Noh2Cog.Documented,
@@ -44,5 +46,6 @@ macro "init_iff" : tactic =>
 /-- every leaf of a constructor tree is `ok` or `raise ValueError` -/
 macro "init_loud" : tactic =>
   `(tactic| (simp only [epv_tree] <;> (try split_ifs) <;> simp))
+
 /-- split a `WellDefined` conjunction and discharge every side condition by `positivity` -/
 macro "well_defined" : tactic => `(tactic| ((repeat' constructor) <;> positivity))
